@@ -16,13 +16,17 @@ import (
 
 const maxVCBytes = 4 << 20
 
-func (o *Obligation) smt() string {
+func (o *Obligation) smt() string { return o.smtVariant(false) }
+
+// smtVariant(relaxed=true) drops every quantified assumption/axiom: fewer assumptions, so unsat is still a proof;
+// a sat answer is only a candidate counterexample (to be replayed).
+func (o *Obligation) smtVariant(relaxed bool) string {
 	var b strings.Builder
 	b.WriteString("(set-option :produce-models true)\n(set-logic ALL)\n")
 	b.WriteString(prelude)
 	if o.tx != nil {
 		dt := o.tx.d.text(-1)
-		if o.Cover {
+		if o.Cover || relaxed {
 			// reachability covers are decided modulo the quantified axioms/frames (dropping assumptions can only
 			// make a cover easier to satisfy; the dropped ones are conservative definitions)
 			keep := []string{}
@@ -38,7 +42,7 @@ func (o *Obligation) smt() string {
 		b.WriteString(o.tx.d.strDistinct())
 		b.WriteString("\n")
 		for i := 0; i < o.NAssume && i < len(o.tx.assumes); i++ {
-			if o.Cover && (strings.Contains(o.tx.assumes[i], "(forall ") || strings.Contains(o.tx.assumes[i], "(exists ")) {
+			if (o.Cover || relaxed) && (strings.Contains(o.tx.assumes[i], "(forall ") || strings.Contains(o.tx.assumes[i], "(exists ")) {
 				continue
 			}
 			b.WriteString("(assert " + o.tx.assumes[i] + ")\n")
@@ -147,6 +151,26 @@ func discharge(o *Obligation, dir string, timeoutS int) {
 	}
 	cancel()
 	o.TimeS = time.Since(t0).Seconds()
+	if best == nil && !o.Cover && strings.Contains(text, "(forall ") {
+		// second chance: the quantifier-free relaxation
+		rf := strings.TrimSuffix(fname, ".smt2") + ".relaxed.smt2"
+		os.WriteFile(rf, []byte(o.smtVariant(true)), 0o644)
+		rt := timeoutS / 2
+		if rt < 5 {
+			rt = 5
+		}
+		for _, sv := range solvers[:2] {
+			r := runSolver(context.Background(), sv, rt, rf)
+			outs = append(outs, fmt.Sprintf("--- relaxed %s (%.2fs): %s", r.solver, r.secs, trunc(strings.TrimSpace(r.out), 200)))
+			if r.status == "unsat" || r.status == "sat" {
+				rr := r
+				rr.solver += "+relaxed"
+				best = &rr
+				break
+			}
+		}
+		o.TimeS = time.Since(t0).Seconds()
+	}
 	if best == nil {
 		o.Status = "unknown"
 		o.Output = strings.Join(outs, "\n")
